@@ -38,15 +38,35 @@ structure Obj where
   prop : Option String := none
 deriving DecidableEq, Repr, Inhabited
 
+/-- An import STATEMENT: what is imported, and the optional version (`import M 6.2`, `import "../b" 1.0`) and alias
+    (`import M as W`) the grammar admits. -/
+structure ImportStmt where
+  what : Import
+  version : Option String := none
+  alias : Option String := none
+deriving DecidableEq, Repr, Inhabited
+
+/-- plain statements (no version, no alias) -/
+def ImportStmt.named (name : String) : ImportStmt := { what := .named name }
+def ImportStmt.dir (segs : List String) : ImportStmt := { what := .dir segs }
+
 /-- A `.qml` file.  `hasRoot = false`: the file has no root object (`UiProgram::from_node` fails), so it
     defines no component and its imports are not followed. -/
 structure File where
   stem : String
   hasRoot : Bool := true
-  imports : List Import := []
+  /-- the import statements in source order -/
+  stmts : List ImportStmt := []
   root : Obj
   children : List Obj := []
 deriving DecidableEq, Repr, Inhabited
+
+/-- The imports that COUNT, in source order.  Both places that read a file's import list (`make_doc_component_data`
+    for the component the file defines, `make_doc_module_space` for the document being translated) run the same loop:
+    an ALIASED statement is reported ("aliased import is not supported", an error) and skipped — it contributes
+    nothing: no module id, no directory to discover; a VERSIONED statement is reported ("import version is ignored",
+    a warning) and then handled like the same statement without version. -/
+def File.imports (f : File) : List Import := (f.stmts.filter fun s => s.alias.isNone).map (·.what)
 
 structure Dir where
   path : Path
@@ -324,7 +344,15 @@ inductive Diag where
   | unknownProperty (cls : String) (prop : String)
   | notQWidget (cls : String)
   | notActionLayoutWidget (cls : String)
+  /-- "aliased import is not supported" (error; the statement is skipped) -/
+  | aliasedImport
+  /-- "import version is ignored" (the only WARNING of the model: it does not reject the document) -/
+  | importVersionIgnored
 deriving DecidableEq, Repr, Inhabited
+
+def Diag.isWarning : Diag → Bool
+  | .importVersionIgnored => true
+  | _ => false
 
 structure Widget where
   cls : String
@@ -346,8 +374,16 @@ structure Output where
   customs : List CustomWidget
 deriving DecidableEq, Repr, Inhabited
 
-/-- the CLI writes the `.ui` iff the form was built and no error was reported -/
-def Output.accepted (o : Output) : Bool := o.built && o.diags.isEmpty
+/-- the CLI writes the `.ui` iff the form was built and no ERROR was reported (warnings do not reject) -/
+def Output.accepted (o : Output) : Bool := o.built && o.diags.all Diag.isWarning
+
+/-- what the import statements of the document being translated are diagnosed with, statement by statement (the
+    harness compares diagnostics as a sorted list, so their position among the other diagnostics is not modelled) -/
+def stmtDiags : List ImportStmt → List Diag
+  | [] => []
+  | s :: rest =>
+    (if s.alias.isSome then [Diag.aliasedImport]
+     else if s.version.isSome then [Diag.importVersionIgnored] else []) ++ stmtDiags rest
 
 /-- `make_doc_module_space`: only modules present in the type map are stacked, the others are diagnosed -/
 def docSpace (env : Env) (t : Tree) (look : Path → Option Module) (base : Path) (imports : List Import) :
@@ -452,8 +488,8 @@ def kidWidgetOf (n : NodeInfo) : Widget :=
 def translate (env : Env) (t : Tree) (look : Path → Option Module) (base : Path) (f : File) : Option Output :=
   let sp := docSpace env t look base f.imports
   match getType env look sp.1 f.root.typeName with
-  | .notFound => some { built := false, diags := sp.2 ++ [.unknownObjectType f.root.typeName], widgets := [], customs := [] }
-  | .err e => some { built := false, diags := sp.2 ++ [.objectTypeResolutionFailed e], widgets := [], customs := [] }
+  | .notFound => some { built := false, diags := stmtDiags f.stmts ++ sp.2 ++ [.unknownObjectType f.root.typeName], widgets := [], customs := [] }
+  | .err e => some { built := false, diags := stmtDiags f.stmts ++ sp.2 ++ [.objectTypeResolutionFailed e], widgets := [], customs := [] }
   | .ok rootCls =>
     let d1 := (kidResults env look sp.1 f).filterMap fun
       | .inl d => some d
@@ -462,7 +498,7 @@ def translate (env : Env) (t : Tree) (look : Path → Option Module) (base : Pat
     | some kids, some [root] =>
       some { built := true,
              -- module space; object tree; code maps in flat order (children, root); form (root, children)
-             diags := sp.2 ++ d1 ++ (kids.flatMap fun n => (bindingOf n).2) ++ (bindingOf root).2
+             diags := stmtDiags f.stmts ++ sp.2 ++ d1 ++ (kids.flatMap fun n => (bindingOf n).2) ++ (bindingOf root).2
                         ++ classDiag true root ++ kids.flatMap (classDiag false),
              widgets := widgetOf root :: kids.map kidWidgetOf,
              customs := customWidgets env look (nodesOf env look sp.1 f rootCls) }
